@@ -201,9 +201,14 @@ func (db *LeveldbPermanent) State(key string) (st base.State, found bool, _ erro
 		return i, j, nil
 	}
 
-	pst, err := db.st()
-	if err != nil {
-		return nil, false, err
+	// NOTE merging replaces state and cleans it from cache under Lock; read
+	// and cache under RLock, not to cache the replaced one.
+	db.RLock()
+	defer db.RUnlock()
+
+	pst := db.pst
+	if pst == nil {
+		return nil, false, storage.ErrClosed.WithStack()
 	}
 
 	switch b, found, err := pst.Get(leveldbStateKey(key)); {
